@@ -73,8 +73,16 @@ func validateTrustedResourceURLPrefix(prefix string) error {
 	if !safehtmlutil.IsSafeTrustedResourceURLPrefix(decoded) {
 		return fmt.Errorf("%q is a disallowed TrustedResourceURL prefix", prefix)
 	}
+	if endsWithDotSegmentPattern.MatchString(decoded) {
+		// A substitution of "." after such a prefix would complete a ".." dot-segment.
+		return fmt.Errorf("TrustedResourceURL prefix %q ends with a \".\" path segment, which a substitution could complete into \"..\"", prefix)
+	}
 	return nil
 }
+
+// endsWithDotSegmentPattern matches strings whose last path segment so far is exactly "."
+// in its percent-encoded or unencoded form.
+var endsWithDotSegmentPattern = regexp.MustCompile(`(?i)(?:^|/)(?:\.|%2e)$`)
 
 // endsWithPercentEncodingPrefixPattern matches strings that end in an incomplete
 // URL percent encoding triplet.
